@@ -46,6 +46,10 @@ positions apart are instances. -/
 def IsBurst (bits : List Bool) : Prop :=
   ∃ (p : Nat) (w : List Bool) (q : Nat), bits = zeros p ++ w ++ zeros q ∧ w.length ≤ 32 ∧ true ∈ w
 
+/-- Two set bits `d` positions apart in a stream, `0 < d < 2^32 - 1`. -/
+def TwoBits (bits : List Bool) : Prop :=
+  ∃ p d q, 0 < d ∧ d < 4294967295 ∧ bits = zeros p ++ [true] ++ zeros (d - 1) ++ [true] ++ zeros q
+
 /-- The pattern that flips bit `k` of byte `i` in a buffer of `n` bytes. -/
 def flipPattern (n i k : Nat) : Bytes := (List.replicate n (0 : Byte)).set i (UInt8.ofNat (2 ^ k))
 
